@@ -441,6 +441,8 @@ func runC07(c *core.Ctx) {
 	ruleNoPanicInDecoders(c, d)
 	c.Doc("C07.parsers", "parser node builders: parallel slices indexed together have checked equal lengths; unchecked assertions confined to today's sites", 3)
 	ruleParserShapes(c)
+	c.Doc("C07.nil-on-error", "a value returned next to a decoding error is not dereferenced on the paths where the error is set (it is nil there: the use panics)", 1)
+	ruleNilOnError(c, d, "C07.nil-on-error")
 	c.Doc("C07.backtracking", "no two alternatives of an ordered choice share a prefix containing a non-terminal (re-parsed per alternative at every nesting level: exponential time)", 2)
 	ruleBacktracking(c, "C07.backtracking")
 }
@@ -668,6 +670,9 @@ func wireIntegerSinks(c *core.Ctx, d *decoderSet, ruleAlloc, ruleLoop string, ne
 			}
 		}
 		check := func(in ssa.Instruction, v ssa.Value, what string, panicsOnNeg bool, ord *int) {
+			if ruleAlloc == "" {
+				return // loops only
+			}
 			ti, ok := taint[v]
 			if !ok {
 				if ti2, ok2 := taint[core.StripConv(v)]; ok2 {
@@ -849,4 +854,70 @@ func ruleBacktracking(c *core.Ctx, rule string) {
 		}
 		c.Pass(rule, rel+"/choices", token.NoPos, fmt.Sprintf("%d ordered choices analysed, %d ambiguous prefixes", n, len(amb)))
 	}
+}
+
+// ruleNilOnError: for every decoder call returning (value, error) with a
+// pointer-like value, the value is not dereferenced (method invoked on an
+// interface, field or element accessed, unchecked assertion) on a path on
+// which the error may be non-nil.
+func ruleNilOnError(c *core.Ctx, d *decoderSet, rule string) {
+	n := 0
+	for _, fn := range d.funcs {
+		if !notExample(fn) || c.IsTestFile(fn) {
+			continue
+		}
+		ord := 0
+		for _, dc := range d.decoderCallsIn(fn) {
+			cv, ok := dc.call.(*ssa.Call)
+			if !ok || dc.errIdx < 0 {
+				continue
+			}
+			e := errValueOf(dc)
+			if e == nil {
+				continue
+			}
+			isE := func(v ssa.Value) bool { return core.Canon(v) == e }
+			var reach *core.Reach
+			for _, r := range core.Referrers(cv) {
+				x, ok := r.(*ssa.Extract)
+				if !ok || x.Index == dc.errIdx {
+					continue
+				}
+				switch x.Type().Underlying().(type) {
+				case *types.Interface, *types.Pointer, *types.Map:
+				default:
+					continue
+				}
+				n++
+				for _, u := range core.Referrers(x) {
+					deref := false
+					switch y := u.(type) {
+					case ssa.CallInstruction:
+						cc := y.Common()
+						deref = cc.IsInvoke() && cc.Value == ssa.Value(x)
+					case *ssa.FieldAddr:
+						deref = y.X == ssa.Value(x)
+					case *ssa.UnOp:
+						deref = y.Op == token.MUL && y.X == ssa.Value(x)
+					case *ssa.TypeAssert:
+						deref = !y.CommaOk && y.X == ssa.Value(x)
+					case *ssa.MapUpdate:
+						deref = y.Map == ssa.Value(x)
+					}
+					if !deref {
+						continue
+					}
+					if reach == nil {
+						reach = core.ReachFrom(core.After(cv), nil, core.CutEstablishing(core.Eq(isE, core.IsNilConst)))
+					}
+					if reach.Has(u) {
+						ord++
+						c.Fail(rule, fmt.Sprintf("%s/%s#%d", core.FuncKey(fn), dc.callee, ord), u.Pos(),
+							"the value returned by "+dc.callee+" is used (at "+c.Pos(u.Pos())+") on a path where its error may be set: decoders return a nil value with an error, so malformed input panics here instead of being reported")
+					}
+				}
+			}
+		}
+	}
+	c.Pass(rule, "decoder results", token.NoPos, fmt.Sprintf("%d pointer-like results of decoder calls examined", n))
 }
